@@ -145,7 +145,7 @@ def h_two(I, state, kinds1, kinds2, digits):
 
 def cells(tier):
     quick = tier == "quick"
-    digits = 2 if quick else 4
+    digits = 2 if quick else 3
     out = []
     reg = ["c04.reset_backward"]
     b = dict(counters=f"next_in, next_out, watermark symbolic in [1,10^{digits}-1]", msg_seq_num=f"symbolic in [1,10^{digits}+5]",
